@@ -157,6 +157,7 @@ Definition finv (r : frec) : bool :=
 
 Definition Gb (s : st) : bool :=
   implb (is_all (head s)) (fired s) &&
+  (Nat.eqb (pend s) 0 || fired s) &&
   (broken s || Nat.eqb (pend s + b2n (is_all (head s))) (b2n (fired s))) &&
   (broken s || negb (fired s) || Nat.eqb (cnt s) 0) &&
   (is_all (head s) || ((match todo s with [] => true | _ => false end) &&
@@ -286,12 +287,20 @@ Qed.
 
 (* ---- the counter ------------------------------------------------------------------------------------- *)
 
+Ltac bsimp :=
+  simpl in *;
+  repeat (rewrite ?andb_true_r, ?andb_false_r, ?orb_true_r, ?orb_false_r in *; simpl in * ).
+
+Ltac bgoal :=
+  repeat (apply andb_true_iff; split); try reflexivity; try assumption; try (apply Nat.eqb_eq; simpl in *; lia).
+
 Ltac gb_destruct s :=
-  destruct (broken s), (fired s), (is_all (head s)), (crash s), (uaf s); simpl in *; try discriminate; try reflexivity.
+  destruct (broken s), (fired s), (is_all (head s)), (crash s), (uaf s), (todo s), (incall s);
+  bsimp; try discriminate; try reflexivity.
 
 Lemma gb_do_add n du s : Gb s = true -> Gb (do_add n du s) = true.
 Proof.
-  unfold Gb, do_add; simpl. intros H. gb_destruct s; auto.
+  unfold Gb, do_add; simpl. intros H. gb_destruct s; split_and; try discriminate; bgoal.
 Qed.
 
 Lemma gb_do_sub n du bad s : Gb s = true -> Gb (do_sub n du bad s) = true.
@@ -300,18 +309,15 @@ Proof.
   destruct (Nat.eqb (cnt s) n) eqn:Eh; [apply Nat.eqb_eq in Eh|].
   - destruct (Nat.ltb (cnt s) n) eqn:El; [apply Nat.ltb_lt in El; lia|].
     subst n. rewrite Nat.sub_diag.
-    destruct bad; gb_destruct s; split_and; try lia;
-      repeat (apply andb_true_iff; split); auto; try (apply Nat.eqb_eq; simpl in *; lia).
+    destruct bad; gb_destruct s; split_and; try discriminate; try lia; bgoal.
   - destruct (Nat.ltb (cnt s) n) eqn:El;
-    destruct bad; gb_destruct s; split_and; try lia;
-      repeat (apply andb_true_iff; split); auto; try (apply Nat.eqb_eq; simpl in *; lia).
+    destruct bad; gb_destruct s; split_and; try discriminate; try lia; bgoal.
 Qed.
 
 Lemma gb_user_set s : Gb s = true -> Gb (user_set s) = true.
 Proof.
   unfold Gb, user_set; simpl. intros H.
-  destruct (Nat.eqb (cnt s) 0) eqn:E; gb_destruct s; split_and; try lia;
-    repeat (apply andb_true_iff; split); auto; try (apply Nat.eqb_eq; simpl in *; lia).
+  destruct (Nat.eqb (cnt s) 0) eqn:E; gb_destruct s; split_and; try discriminate; try lia; bgoal.
 Qed.
 
 Lemma broken_do_sub n du bad s : broken (do_sub n du bad s) = false ->
@@ -360,4 +366,65 @@ Proof.
   - split; [exact F|]. split; [exact W|].
     eapply rpart_same_obs; eauto. simpl. intros Hb. apply orb_false_iff in Hb. destruct Hb as [Hb _].
     apply orb_false_iff in Hb. tauto.
+Qed.
+
+(* ---- SetImpl's exchange -------------------------------------------------------------------------------- *)
+
+Lemma inv_xchg s old s' : Inv s -> step s (EXchg old) = Some s' -> Inv s'.
+Proof.
+  intros (G & C & F & (W1 & W2 & W3) & R) H. simpl in H.
+  destruct (pend s) as [|p] eqn:Ep; [discriminate|].
+  destruct (hv_eqb old (top (head s))); [|discriminate].
+  destruct (head s) as [l|] eqn:Eh; inv_some H.
+  - (* the list is taken *)
+    assert (Ht : todo s = [] /\ incall s = None).
+    { unfold Gb in G. rewrite Eh in G. simpl in G. destruct (todo s), (incall s); bsimp; try discriminate; auto. }
+    destruct Ht as [Ht Hi].
+    split.
+    + unfold Gb in *; simpl. rewrite Eh, Ep in G. simpl in G.
+      destruct (broken s), (fired s), (crash s), (uaf s); bsimp; try discriminate; split_and; try discriminate;
+        try lia; bgoal.
+    + split; [exact C|]. split; [exact F|]. split.
+      * unfold Wpart; simpl. rewrite Hi, Ht in *. simpl in *. rewrite app_nil_r in *. split; [|split; auto].
+        intros w r Hn. apply wloc_mono. apply W1; auto.
+      * eapply rpart_same_obs; eauto.
+  - (* the head already was all-done *)
+    split.
+    + unfold Gb in *; simpl. rewrite Eh, Ep in G. simpl in G.
+      destruct (broken s), (fired s), (crash s), (uaf s), (todo s), (incall s); bsimp; try discriminate;
+        split_and; try discriminate; try lia; bgoal.
+    + split; [exact C|]. split; [exact F|]. split; [exact (conj W1 (conj W2 W3))|].
+      eapply rpart_same_obs; eauto.
+Qed.
+
+(* ---- futures ------------------------------------------------------------------------------------------ *)
+
+Lemma got_ok_upd fl j r r' g :
+  nth_error fl j = Some r -> finv r = true ->
+  fk r' = fk r -> (fw r = WR -> fw r' = WR /\ fval r' = fval r) ->
+  got_ok fl g -> got_ok (upd j r' fl) g.
+Proof.
+  intros Hn Hf Hk Hw [H|[r0 (H1 & H2 & H3 & H4)]]; [left; auto|right].
+  destruct (Nat.eq_dec j (fst g)) as [<-|Hne].
+  - rewrite Hn in H1. inv_some H1. exists r'. split; [eapply nth_upd_same; eauto|].
+    destruct (Hw H4) as [Ha Hb]. repeat split; congruence.
+  - exists r0. rewrite nth_upd_other; auto.
+Qed.
+
+Ltac fut_fields r :=
+  destruct r as [k w a p v fr h]; simpl in *.
+
+(* every step of a future keeps its local invariant, keeps the kind, and never un-completes it *)
+Lemma step_f_local s j r e s' :
+  finv r = true -> nth_error (fs s) j = Some r -> step_f s j r e = Some s' ->
+  exists r', (fs s' = upd j r' (fs s) \/ (fs s' = fs s /\ r' = r)) /\ finv r' = true /\ fk r' = fk r /\
+             (fw r = WR -> fw r' = WR /\ fval r' = fval r) /\
+             ws s' = ws s /\ head s' = head s /\ todo s' = todo s /\ incall s' = incall s /\ rels s' = rels s.
+Proof.
+  intros Hf Hn H. destruct e; simpl in H; try discriminate.
+  all: fut_fields r; case_hyp H; inv_some H; simpl.
+  all: try (eexists; split; [left; reflexivity|]; simpl;
+            destruct k, h; simpl in *; try discriminate; bsimp; split_and; subst; try discriminate;
+            repeat split; try reflexivity; try discriminate; auto; fail).
+  all: try (eexists; split; [right; split; reflexivity|]; simpl; repeat split; auto; fail).
 Qed.
